@@ -69,13 +69,16 @@ def to_value(T, v, spec=None):
     spec = spec if spec is not None else to_type(T)
     if k in SIMPLE:
         if k == 'BITSTRING':
-            return spec.clone(binValue=v) if v else spec.clone(())
+            # (a value object's clone(binValue=...) keeps the old value: pass the bits as the value itself)
+            return spec.clone(univ.BitString.fromBinaryString(v)) if v else spec.clone(())
         return spec.clone(scalar_arg(T, v))
     obj = spec.clone()
     if k in ('SEQUENCE', 'SET'):
         for n, ft, mode in T['fields']:
             if n in v:
                 obj.setComponentByName(n, to_value(ft, v[n], spec.componentType[n].asn1Object))
+        if not T['fields']:
+            obj.clear()         # a record type without members: the empty value, not the schema object
         return obj
     if k in ('SEQUENCEOF', 'SETOF'):
         for i, x in enumerate(v):
